@@ -1301,8 +1301,6 @@ extern "C" {
           case dr_dag_node_kind_section:
             if (x->next) {
               s->info.logical_edge_counts[dr_dag_edge_kind_wait_cont]++;
-              s->info.logical_edge_counts[dr_dag_edge_kind_end] 
-                += x->info.n_child_create_tasks;
             }
             break;
           default:
@@ -1313,6 +1311,13 @@ extern "C" {
         s->info.t_inf = dr_max_clock(t_inf, s->info.t_inf);
         for (j = 0; j < dr_max_counters; j++) {
           s->info.counters_inf[j] = dr_max_count(counters_inf[j], s->info.counters_inf[j]);
+        }
+        /* the tasks created in a section join at its end: count their
+           end edges with the section itself, so that they survive
+           when the section is collapsed and its parent is not */
+        if (s->info.kind == dr_dag_node_kind_section) {
+          s->info.logical_edge_counts[dr_dag_edge_kind_end] 
+            += s->info.n_child_create_tasks;
         }
       }
       /* turned out we can collapse this node. */
